@@ -1,30 +1,23 @@
 """End-to-end stage shared by C14 and C15 (real dispatcher against test.StubDriver).
 
-The stage runs the dispatcher in-process.  Two robustness defects of the dispatcher (notes/C14.md, O2/O3:
-nil map entry in Pool.reportSSHConnected when an instance disappears while a probe is connecting; a
-remoteRunner closed twice) make the whole Go test process panic once in ~100 runs.  A panic of the code
-under test is not a verdict about C14/C15, so the stage is repeated (other seed) up to three times and the
-occurrence is recorded in the evidence."""
+The dispatcher runs inside the Go test process.  If the code under test panics (as it did before the
+fixes F22 / F23: nil map entry in Pool.reportSSHConnected, remoteRunner closed twice) the test process
+dies: that is reported as a failure of the check, with the trace in the replay file -- it is NOT retried."""
 import re
 
-from . import core
 from .props import HDR
 
-PANIC = re.compile(r"panic: (close of closed channel|runtime error: invalid memory address)")
+PANIC = re.compile(r"panic: [^\n]*")
 
 
 def run_e2e(ctx, n, mode, big, seed_offset, replace, notes):
-    st = None
-    for attempt in range(3):
-        st = ctx.stage("e2e", "lib/dispatchcloud", "dispatchcloud", ["C14/zz_verif_c14e2e_test.go"], "TestVerifC14E2E$",
-                       n, HDR.format(imports="model.C14_e2e_run"), shard=1, seed_offset=seed_offset + 1000 * attempt,
-                       env={"VERIF_STAGE": "e2e", "VERIF_E2EMODE": mode, "VERIF_BIG": "1" if big else "0"}, timeout=3000,
-                       replace=replace)
-        if st.errors and PANIC.search(st.errors[0]) and "lib/dispatchcloud/worker" in st.errors[0]:
-            m = PANIC.search(st.errors[0])
-            notes.append("e2e attempt %d: the dispatcher under test panicked (%s); repeated with another seed" % (attempt + 1, m.group(1)))
-            core.log("%s: dispatcher panic in the e2e stage (%s), repeating" % (ctx.pid, m.group(1)))
-            ctx.stages.remove(st)
-            continue
-        break
+    st = ctx.stage("e2e", "lib/dispatchcloud", "dispatchcloud", ["C14/zz_verif_c14e2e_test.go"], "TestVerifC14E2E$",
+                   n, HDR.format(imports="model.C14_e2e_run"), shard=1, seed_offset=seed_offset,
+                   env={"VERIF_STAGE": "e2e", "VERIF_E2EMODE": mode, "VERIF_BIG": "1" if big else "0"}, timeout=3000,
+                   replace=replace)
+    if st.errors:
+        m = PANIC.search(st.errors[0])
+        if m:
+            notes.append("the dispatcher under test panicked in the e2e stage: %s (trace in the replay file)" % m.group(0))
+            st.errors[0] = "DISPATCHER PANIC (observed behaviour: the dispatcher process crashed; C15: it must keep running): " + st.errors[0]
     return st
